@@ -52,6 +52,21 @@ CONSTANTS Depth,          \* "quick" | "thorough" : how much of the grammar x mu
           PanicSites,     \* reader sites that slice / unwrap without a check in the transcribed code
           OverflowChecks  \* TRUE: arithmetic overflow panics (debug build); the shipped build wraps
 
+\* The unchecked slices / unwraps of the pinned commit (model names: file::function#kind).  The MC and trace
+\* configurations substitute this set for PanicSites; when the fix of a site is committed to /repo, delete the
+\* site here (otherwise Layer M reports the no-longer-reproduced panics as NONCONFORMANCE).
+PinnedPanicSites ==
+  { "armor.rs::decode#range-start", "armor.rs::decode#range-end",                                    \* fixes/C09-1
+    "ser.rs::option_dalek_sig_serde::deserialize#range-end", "ser.rs::dalek_sig_serde::deserialize#range-end",
+    "ed25519::Signature::new#invalid-signature", "grin_secp256k1zkp::RangeProof::visit_seq#index",     \* fixes/C09-2
+    "v4_bin.rs::ProofWrap::read#unwrap",                                                              \* fixes/C09-3
+    "types.rs::try_decrypt_payload#range-end", "types.rs::try_decrypt_payload#split_off",
+    "types.rs::try_decrypt_payload#unreachable",                                                      \* fixes/C09-4
+    "lmdb.rs::get_stored_tx#unwrap",                                                                  \* fixes/C09-5
+    "grin_keychain::BlindingFactor::from_hex#unwrap",                                                 \* fixes/C09-7
+    "grin_keychain::Identifier::from_hex#unwrap",                                                     \* fixes/C09-8
+    "grin_util::from_hex#char-boundary" }                                                             \* upstream (fixes/C09-2,5,6,9 guard the wallet's own callers)
+
 RECURSIVE Flat(_)
 Flat(ss) == IF ss = <<>> THEN <<>> ELSE Head(ss) \o Flat(Tail(ss))
 Str(i) == ToString(i)
